@@ -35,6 +35,59 @@ def _nodoc(body):
     return [s for s in body if not (isinstance(s, ast.Expr) and isinstance(s.value, ast.Constant) and isinstance(s.value.value, str))]
 
 
+# --- statements are compared / translated MODULO the names of local variables: every extractor first renames the
+# locals that play a role (found by what they are assigned / iterate over) to canonical names; docstrings and
+# comments never matter (ast), exception message texts are not compared (error codes come from the position)
+def _canon(fn, roles):
+    """roles: [(canonical name, finder)]; finder(fn) -> actual local name or None.  Applied one after the other, so a
+    later finder may use the canonical names of earlier roles."""
+    import copy
+
+    fn = copy.deepcopy(fn)
+    for canon, finder in roles:
+        actual = finder(fn)
+        if actual is None:
+            raise T.Broken(f"{fn.name}: no local variable plays the role of `{canon}`")
+        if actual != canon:
+            clash = [n for n in ast.walk(fn) if isinstance(n, ast.Name) and n.id == canon]
+            if clash:
+                raise T.Broken(f"{fn.name}: `{canon}` is used for something else")
+            fn = pyexpr._Renamer({actual: canon}).visit(fn)
+    # every other local gets a positional name, so that no choice of name can clash with the generated binders
+    keep = {c for c, _ in roles}
+    rest = {n: f"loc{i}_" for i, n in enumerate(pyexpr.local_names(fn, keep=keep))}
+    return pyexpr._Renamer(rest).visit(fn)
+
+
+def _assigned(pattern):
+    """the name assigned a value whose source text matches `pattern` (first in source order)"""
+    def f(fn):
+        for n in ast.walk(fn):
+            if isinstance(n, ast.Assign) and len(n.targets) == 1 and isinstance(n.targets[0], ast.Name) \
+                    and re.fullmatch(pattern, ast.unparse(n.value), re.S):
+                return n.targets[0].id
+        return None
+    return f
+
+
+def _loop_var(iter_pattern, index=None, nth=0):
+    """the target (or its index-th component, possibly nested like (1, 0)) of the nth loop / comprehension over `iter_pattern`"""
+    def f(fn):
+        k = 0
+        for n in ast.walk(fn):
+            if isinstance(n, (ast.For, ast.comprehension)) and re.fullmatch(iter_pattern, ast.unparse(n.iter), re.S):
+                if k == nth:
+                    t = n.target
+                    for i in (index if isinstance(index, tuple) else (() if index is None else (index,))):
+                        if not isinstance(t, ast.Tuple) or i >= len(t.elts):
+                            return None
+                        t = t.elts[i]
+                    return t.id if isinstance(t, ast.Name) else None
+                k += 1
+        return None
+    return f
+
+
 def _guard(f):
     def g():
         try:
@@ -47,24 +100,19 @@ def _guard(f):
 # =============================================================================== _check_model_params
 KINDS = {"POSITIONAL_ONLY": "PosOnly", "POSITIONAL_OR_KEYWORD": "PosOrKw", "VAR_POSITIONAL": "VarPos",
          "KEYWORD_ONLY": "KwOnly", "VAR_KEYWORD": "VarKw"}
-MESSAGES = [("requires the use of keyword arguments", 1), ("Missing required model parameter", 2),
-            ("Invalid model parameter", 3), ("Positional-only model parameter", 4)]
+E_VARARGS, E_MISSING, E_INVALID, E_POSONLY = 1, 2, 3, 4
 
 
-def _raise_code(s):
+def _message_prefix(s):
+    """literal beginning of the message of `raise ValueError(<str or f-string>)` (for the harness only)"""
     if not (isinstance(s, ast.Raise) and isinstance(s.exc, ast.Call) and ast.unparse(s.exc.func) == "ValueError" and len(s.exc.args) == 1):
         raise pyexpr.Unsupported("raise of something else than ValueError(message)")
     a = s.exc.args[0]
     if isinstance(a, ast.Constant) and isinstance(a.value, str):
-        text = a.value
-    elif isinstance(a, ast.JoinedStr) and a.values and isinstance(a.values[0], ast.Constant):
-        text = a.values[0].value
-    else:
-        raise pyexpr.Unsupported("error message is not a (formatted) string literal")
-    for prefix, code in MESSAGES:
-        if prefix in text:
-            return str(code)
-    raise pyexpr.Unsupported(f"unknown error message {text[:40]!r}")
+        return a.value
+    if isinstance(a, ast.JoinedStr) and a.values and isinstance(a.values[0], ast.Constant):
+        return a.values[0].value
+    raise pyexpr.Unsupported("error message is not a (formatted) string literal")
 
 
 class CheckTr(pyexpr.Tr):
@@ -74,6 +122,26 @@ class CheckTr(pyexpr.Tr):
         super().__init__()
         self.kind_sets = {}        # tuple-valued names: keyword_kinds -> [PosOrKw, KwOnly]
         self.options = {}          # option-valued names: param -> "(lookup_param s name)"
+        self.where = "top"         # top | sig (loop over the signature) | given (loop over the given names)
+        self.messages = []         # (literal message prefix, error code) in source order
+        self.lex_posonly = set()
+
+    def mark_lexical(self, stmts, inside=False):
+        """raise statements that stand lexically inside an `if` testing for POSITIONAL_ONLY"""
+        for st in stmts:
+            if isinstance(st, ast.Raise) and inside:
+                self.lex_posonly.add(id(st))
+            elif isinstance(st, ast.If):
+                self.mark_lexical(st.body, inside or "POSITIONAL_ONLY" in ast.unparse(st.test))
+                self.mark_lexical(st.orelse, inside)
+
+    def raise_code(self, s, posonly=False):
+        """the error code of a raise is decided by WHERE it stands (which loop, lexically under which test), never by
+        the wording of its message"""
+        code = {"top": E_VARARGS, "sig": E_POSONLY if id(s) in self.lex_posonly else E_MISSING, "given": E_INVALID}[self.where]
+        if (_message_prefix(s), code) not in self.messages:
+            self.messages.append((_message_prefix(s), code))
+        return str(code)
 
     def _kind(self, text):
         m = re.fullmatch(r"inspect\.Parameter\.(\w+)", text)
@@ -115,7 +183,7 @@ class CheckTr(pyexpr.Tr):
                 return f"(match {self.options[c.left.id]} with Some {c.left.id} => {t} | None => false end)", "bool"
         return super().expr(e)
 
-    def code(self, stmts):
+    def code(self, stmts, posonly=False):
         """loop body / function tail -> Z: the code of the ValueError raised, 0 when control falls through / continues"""
         if not stmts:
             return "0"
@@ -123,35 +191,45 @@ class CheckTr(pyexpr.Tr):
         if isinstance(s, ast.Continue):
             return "0"
         if isinstance(s, ast.Raise):
-            return _raise_code(s)
+            return self.raise_code(s, posonly)
         if isinstance(s, ast.If):
             c = self.bexpr(s.test)
-            then_t = self.code(list(s.body) + ([] if self._terminates(s.body) else rest))
+            inner = posonly or "POSITIONAL_ONLY" in ast.unparse(s.test)
+            then_t = self.code(list(s.body) + ([] if self._terminates(s.body) else rest), inner)
             els = list(s.orelse)
-            else_t = self.code(els + ([] if (els and self._terminates(els)) else rest))
+            else_t = self.code(els + ([] if (els and self._terminates(els)) else rest), posonly)
             return f"(if {c} then {then_t} else {else_t})"
         if isinstance(s, ast.Assign) and len(s.targets) == 1 and isinstance(s.targets[0], ast.Name):
             name = s.targets[0].id
-            if ast.unparse(s.value) == "model_parameters.get(name)":
+            if ast.unparse(s.value) in ("model_parameters.get(name)", "model_parameters.get(name, None)"):
                 self.options[name] = "(lookup_param s name)"
-                return self.code(rest)
+                return self.code(rest, posonly)
             t = self.bexpr(s.value)
             self.bool_names.add(name)
-            return f"(let {name} := {t} in {self.code(rest)})"
+            return f"(let {name} := {t} in {self.code(rest, posonly)})"
         raise pyexpr.Unsupported(f"statement {ast.unparse(s)[:50]}")
 
 
-@_guard
-def c_check():
+def _check_fn():
     fn = T._find_func(T._parse(SOLARA), "_check_model_params")
     if [a.arg for a in fn.args.args] != ["init_func", "model_params"]:
         raise T.Broken("unexpected parameters of _check_model_params")
+    return _canon(fn, [
+        ("model_parameters", _assigned(r"inspect\.signature\(init_func\)\.parameters")),
+        ("name", _loop_var(r"model_parameters\.items\(\)", 0)),
+        ("param", _loop_var(r"model_parameters\.items\(\)", 1)),
+    ])
+
+
+def _translate_check():
+    fn = _check_fn()
     body = _nodoc(fn.body)
     if not body or ast.unparse(body[0]) != "model_parameters = inspect.signature(init_func).parameters":
-        raise T.Broken("first statement is not `model_parameters = inspect.signature(init_func).parameters`")
+        raise T.Broken("the signature is not read first")
     tr = CheckTr()
     defs = []
     bound = []          # boolean names bound so far (parameters of the generated loop bodies)
+    counters = {"any": 0}
 
     def params():
         return "(s : list param) (ps : list Z)" + "".join(f" ({b} : bool)" for b in bound)
@@ -171,9 +249,11 @@ def c_check():
                     and isinstance(v.args[0].generators[0].target, ast.Name)):
                 var = v.args[0].generators[0].target.id
                 cond = tr.bexpr(v.args[0].elt)
-                defs.append(f"Definition gen_check_{name} ({var} : param) : bool :=\n  {cond}.")
+                counters["any"] += 1
+                dname = f"gen_check_any{counters['any']}"
+                defs.append(f"Definition {dname} ({var} : param) : bool :=\n  {cond}.")
                 tr.bool_names.add(name)
-                out = f"(let {name} := existsb gen_check_{name} s in "
+                out = f"(let {name} := existsb {dname} s in "
                 bound.append(name)
                 return out + go(rest, nloop) + ")"
             if isinstance(v, ast.Tuple) and all(ast.unparse(x).startswith("inspect.Parameter.") for x in v.elts):
@@ -181,16 +261,21 @@ def c_check():
                 return go(rest, nloop)
             raise pyexpr.Unsupported(f"assignment {ast.unparse(st)[:60]}")
         if isinstance(st, ast.If) and not st.orelse and len(st.body) == 1 and isinstance(st.body[0], ast.Raise):
-            return f"(if {tr.bexpr(st.test)} then {_raise_code(st.body[0])} else {go(rest, nloop)})"
+            tr.where = "top"
+            return f"(if {tr.bexpr(st.test)} then {tr.raise_code(st.body[0])} else {go(rest, nloop)})"
         if isinstance(st, ast.For) and not st.orelse:
             it, tg = ast.unparse(st.iter), ast.unparse(st.target)
-            if it == "model_parameters.items()" and tg == "(name, param)":
-                fname = f"gen_check_loop{nloop}_body"
+            fname = f"gen_check_loop{nloop}_body"
+            if it == "model_parameters.items()" and tg in ("(name, param)", "name, param"):
+                tr.where = "sig"
+                tr.mark_lexical(list(st.body))
                 defs.append(f"Definition {fname} {params()} (param : param) : Z :=\n  let name := pn param in\n  {tr.code(list(st.body))}.")
                 over = "s"
-            elif it == "model_params" and tg == "name":
-                fname = f"gen_check_loop{nloop}_body"
-                defs.append(f"Definition {fname} {params()} (name : Z) : Z :=\n  {tr.code(list(st.body))}.")
+            elif it == "model_params" and isinstance(st.target, ast.Name):
+                tr.where = "given"
+                var = st.target.id
+                body2 = [pyexpr._Renamer({var: "name"}).visit(x) for x in __import__("copy").deepcopy(list(st.body))] if var != "name" else list(st.body)
+                defs.append(f"Definition {fname} {params()} (name : Z) : Z :=\n  {tr.code(body2)}.")
                 over = "ps"
             else:
                 raise pyexpr.Unsupported(f"loop `for {tg} in {it}`")
@@ -199,7 +284,22 @@ def c_check():
 
     main = go(body[1:], 1)
     defs.append(f"Definition gen_check_model_params (s : list param) (ps : list Z) : Z :=\n  {main}.")
+    return defs, tr.messages
+
+
+@_guard
+def c_check():
+    defs, _ = _translate_check()
     return _wrap("check", "\n".join(defs))
+
+
+def check_messages():
+    """[(literal beginning of the message, error code)] of the ValueErrors of _check_model_params, for the harness:
+    the observer classifies a raised error by these, so rewording a message in the source changes nothing"""
+    try:
+        return _translate_check()[1]
+    except Exception:  # noqa: BLE001
+        return []
 
 
 def fb_check():
@@ -249,6 +349,7 @@ def c_split():
     fn = T._find_func(T._parse(SOLARA), "split_model_params")
     if [a.arg for a in fn.args.args] != ["model_params"]:
         raise T.Broken("unexpected parameters of split_model_params")
+    fn = _canon(fn, [("k", _loop_var(r"model_params\.items\(\)", 0)), ("v", _loop_var(r"model_params\.items\(\)", 1))])
     body = _nodoc(fn.body)
     dicts = []
     i = 0
@@ -258,7 +359,7 @@ def c_split():
     if len(dicts) != 2 or len(body) != 4:
         raise T.Broken("expected two empty dicts, one loop, one return")
     loop, ret = body[2], body[3]
-    if not (isinstance(loop, ast.For) and ast.unparse(loop.target) == "(k, v)" and ast.unparse(loop.iter) == "model_params.items()" and not loop.orelse):
+    if not (isinstance(loop, ast.For) and ast.unparse(loop.target) in ("(k, v)", "k, v") and ast.unparse(loop.iter) == "model_params.items()" and not loop.orelse):
         raise T.Broken("loop is not `for k, v in model_params.items()`")
 
     def comp(name):
@@ -341,7 +442,13 @@ def _one(asg, target, where):
 
 @_guard
 def c_hex_center():
-    fn = T._find_func(T._parse(MPL), "draw_hex_grid")
+    fn = _canon(T._find_func(T._parse(MPL), "draw_hex_grid"), [
+        ("arguments", _assigned(r"collect_agent_data\(.*\)")),
+        ("size", _assigned(r"1\.0")),
+        ("x_spacing", _assigned(r"np\.sqrt\(3\) \* size")),
+        ("y_spacing", _assigned(r"1\.5 \* size")),
+        ("loc", _assigned(r"arguments\['loc'\]\.astype\(float\)")),
+    ])
     asg = _assigns(fn)
     for k, v in UNITS.items():
         if ast.unparse(_one(asg, k, "draw_hex_grid")) != v:
@@ -360,7 +467,11 @@ def c_hex_center():
 
 @_guard
 def c_mesh():
-    fn = T._find_func(T._parse(MPL), "_get_hexmesh")
+    fn = _canon(T._find_func(T._parse(MPL), "_get_hexmesh"), [
+        ("x_spacing", _assigned(r"np\.sqrt\(3\) \* size")),
+        ("y_spacing", _assigned(r"1\.5 \* size")),
+        ("hexagons", _assigned(r"\[\]")),
+    ])
     asg = {}
     for n in fn.body:
         if isinstance(n, ast.Assign):
@@ -434,11 +545,20 @@ class ArrTr:
                 return not self.rows(e.func.value)
             if f == "np.clip" and e.args:
                 return self.rows(e.args[0])
+            if f in ("np.zeros", "np.ones", "np.zeros_like", "np.ones_like") and len(e.args) >= 1:
+                m = re.fullmatch(r"(\w+)(\.shape)?", ast.unparse(e.args[0]))
+                if m:
+                    return self.rows(ast.Name(id=m.group(1)))
             if f == "np.full" and isinstance(e.args[0], ast.Tuple) and isinstance(e.args[0].elts[0], ast.Starred):
                 m = re.fullmatch(r"(\w+)\.shape", ast.unparse(e.args[0].elts[0].value))
                 if m:
                     return self.rows(ast.Name(id=m.group(1)))
             raise pyexpr.Unsupported(f"array call {f}")
+        if isinstance(e, ast.IfExp):
+            a, b = self.rows(e.body), self.rows(e.orelse)
+            if a != b:
+                raise pyexpr.Unsupported("the branches of a conditional have different orientation")
+            return a
         if isinstance(e, ast.BinOp):
             sides = [self.rows(x) for x in (e.left, e.right) if self._is_array(x)]
             if not sides or any(s != sides[0] for s in sides):
@@ -460,7 +580,16 @@ class ArrTr:
 
 @_guard
 def c_layers():
-    fn = T._find_func(T._parse(MPL), "draw_property_layers")
+    fn = _canon(T._find_func(T._parse(MPL), "draw_property_layers"), [
+        ("portrayal", _loop_var(r"propertylayer_portrayal\.items\(\)", 1)),
+        ("data", _assigned(r"\w+\.data\.astype\(float\) if .*")),
+        ("hexagons", _assigned(r"_get_hexmesh\(\w+, \w+\)")),
+        ("width", lambda f: next((n.targets[0].elts[0].id for n in ast.walk(f) if isinstance(n, ast.Assign) and ast.unparse(n.value) == "data.shape"
+                                  and isinstance(n.targets[0], ast.Tuple) and len(n.targets[0].elts) == 2), None)),
+        ("height", lambda f: next((n.targets[0].elts[1].id for n in ast.walk(f) if isinstance(n, ast.Assign) and ast.unparse(n.value) == "data.shape"
+                                   and isinstance(n.targets[0], ast.Tuple) and len(n.targets[0].elts) == 2), None)),
+        ("colors", _assigned(r"(np\.ravel\(.*\)|.*\.(ravel|flatten)\(\))")),
+    ])
     # the orthogonal branch and the hex branch of the per-layer loop
     ifs = [n for n in ast.walk(fn) if isinstance(n, ast.If) and "isinstance(space, OrthogonalGrid)" in ast.unparse(n.test)]
     if len(ifs) != 1:
@@ -507,7 +636,7 @@ def c_layers():
     for st in hexb.body:
         if isinstance(st, ast.Assign):
             asg[ast.unparse(st.targets[0])] = st.value
-    if ast.unparse(asg.get("(width, height)", ast.Constant(0))) != "data.shape" or ast.unparse(asg.get("hexagons", ast.Constant(0))) != "_get_hexmesh(width, height)":
+    if ast.unparse(asg.get("(width, height)", asg.get("width, height", ast.Constant(0)))) != "data.shape" or ast.unparse(asg.get("hexagons", ast.Constant(0))) != "_get_hexmesh(width, height)":
         raise T.Broken("hex branch: `width, height = data.shape; hexagons = _get_hexmesh(width, height)` not found")
     col = asg.get("colors")
     if col is None:
@@ -536,7 +665,13 @@ POPS = {"size": "pop_size", "color": "pop_color", "marker": "pop_marker", "zorde
 
 @_guard
 def c_collect():
-    fn = T._find_func(T._parse(MPL), "collect_agent_data")
+    fn = _canon(T._find_func(T._parse(MPL), "collect_agent_data"), [
+        ("agent", _loop_var(r"space\.agents")),
+        ("portray", _assigned(r"dict\(agent_portrayal\(agent\)\)")),
+        ("loc", _assigned(r"agent\.pos")),
+        ("arguments", lambda f: next((n.targets[0].id for n in ast.walk(f) if isinstance(n, ast.Assign) and isinstance(n.value, ast.Dict)
+                                      and isinstance(n.targets[0], ast.Name) and "'loc'" in [ast.unparse(k) for k in n.value.keys]), None)),
+    ])
     loops = [n for n in fn.body if isinstance(n, ast.For)]
     if len(loops) != 1 or ast.unparse(loops[0].iter) != "space.agents" or ast.unparse(loops[0].target) != "agent":
         raise T.Broken("expected one loop `for agent in space.agents`")
@@ -651,7 +786,10 @@ class MaskTr:
 
 @_guard
 def c_scatter():
-    fn = T._find_func(T._parse(MPL), "_scatter")
+    fn = _canon(T._find_func(T._parse(MPL), "_scatter"), [
+        ("loc", _assigned(r"arguments\.pop\('loc'\)")),
+        ("entry", _loop_var(r"\['edgecolors', 'linewidths', 'alpha'\]")),
+    ])
     body = _nodoc(fn.body)
     tr = MaskTr()
     lets = []
@@ -728,9 +866,9 @@ def c_scatter():
             raise pyexpr.Unsupported(f"ax.scatter keywords {sorted(kws)}")
         gm, km = tr.expr(kws["marker"])
         gz, kz = tr.expr(kws["zorder"])
-        m = [re.fullmatch(r"\{k: v\[(\w+)\] for k, v in arguments\.items\(\)\}", s) for s in stars]
-        sel = [x.group(1) for x in m if x]
-        if len(sel) != 1 or sorted(stars) != sorted([f"{{k: v[{sel[0]}] for k, v in arguments.items()}}", "kwargs"]):
+        m = [re.fullmatch(r"\{(\w+): (\w+)\[(\w+)\] for \(?\1, \2\)? in arguments\.items\(\)\}", s) for s in stars]
+        sel = [x.group(3) for x in m if x]
+        if len(sel) != 1 or len(stars) != 2 or "kwargs" not in stars:
             raise pyexpr.Unsupported(f"ax.scatter ** arguments {stars}")
         gl, kl = tr.expr(ast.Name(id=sel[0]))
         if kx != "zlist" or ky != "zlist" or km != "Z" or kz != "Z" or kl != "blist":
@@ -744,9 +882,13 @@ def c_scatter():
 
 
 # =============================================================================== Altair x / y
-def _altair_xy(fname, loops, xsrc, ysrc, env):
-    fn = T._find_func(T._parse(ALTAIR), fname)
-    heads = [f"for {ast.unparse(n.target)} in {ast.unparse(n.iter)}" for n in ast.walk(fn) if isinstance(n, ast.For)]
+def _altair_xy(fname, loops, xsrc, ysrc, env, roles=()):
+    fn = _canon(T._find_func(T._parse(ALTAIR), fname), list(roles) + [
+        ("agent_data", _assigned(r"dict\(agent_portrayal\(agent\)\)")),
+        ("all_agent_data", _assigned(r"\[\]")),
+    ])
+    heads = [f"for {ast.unparse(n.target)} in {ast.unparse(n.iter)}".replace("(content, (x, y))", "content, (x, y)")
+             for n in ast.walk(fn) if isinstance(n, ast.For)]
     if heads != loops:
         raise T.Broken(f"{fname}: loops are {heads}")
     asg = {}
@@ -769,12 +911,16 @@ def _altair_xy(fname, loops, xsrc, ysrc, env):
 
 @_guard
 def c_altair():
-    old = _altair_xy("_get_agent_data_old__discrete_space", ["for (content, (x, y)) in space.coord_iter()", "for agent in content"],
-                     "x", "y", {"x": "fst p", "y": "snd p"})
+    old = _altair_xy("_get_agent_data_old__discrete_space", ["for content, (x, y) in space.coord_iter()", "for agent in content"],
+                     "x", "y", {"x": "fst p", "y": "snd p"},
+                     [("content", _loop_var(r"space\.coord_iter\(\)", 0)), ("x", _loop_var(r"space\.coord_iter\(\)", (1, 0))),
+                      ("y", _loop_var(r"space\.coord_iter\(\)", (1, 1))), ("agent", _loop_var(r"content"))])
     new = _altair_xy("_get_agent_data_new_discrete_space", ["for cell in space.all_cells", "for agent in cell.agents"],
-                     "x", "y", {"cell.coordinate[0]": "fst p", "cell.coordinate[1]": "snd p"})
+                     "x", "y", {"cell.coordinate[0]": "fst p", "cell.coordinate[1]": "snd p"},
+                     [("cell", _loop_var(r"space\.all_cells")), ("agent", _loop_var(r"cell\.agents"))])
     cont = _altair_xy("_get_agent_data_continuous_space", ["for agent in space._agent_to_index"],
-                      "x", "y", {"agent.pos[0]": "fst p", "agent.pos[1]": "snd p"})
+                      "x", "y", {"agent.pos[0]": "fst p", "agent.pos[1]": "snd p"},
+                      [("agent", _loop_var(r"space\._agent_to_index"))])
     return _wrap("altair",
                  f"Definition gen_altair_xy_old (p : Z * Z) : Z * Z := {old}.\n"
                  f"Definition gen_altair_xy_new (p : Z * Z) : Z * Z := {new}.\n"
@@ -786,7 +932,22 @@ def c_altair_enc():
     """_draw_grid: WHICH dict the tooltip / color / size encodings are read from and how it is built
     (all rows, setdefault in row order -> rows_union; the first row only -> rows_first), which key decides
     which encoding, which keys become tooltips"""
-    fn = T._find_func(T._parse(ALTAIR), "_draw_grid")
+    def flag_of(enc):
+        def f(fn0):
+            for n in ast.walk(fn0):
+                if isinstance(n, ast.If) and isinstance(n.test, ast.Name) and len(n.body) == 1 \
+                        and ast.unparse(n.body[0]).startswith(f"encoding_dict['{enc}'] ="):
+                    return n.test.id
+            return None
+        return f
+
+    fn = _canon(T._find_func(T._parse(ALTAIR), "_draw_grid"), [
+        ("all_agent_data", _assigned(r"_get_agent_data_new_discrete_space\(space, agent_portrayal\)")),
+        ("invalid_tooltips", _assigned(r"\[('\w+', ){3}'\w+'\]")),
+        ("encoding_dict", lambda f: next((n.targets[0].id for n in ast.walk(f) if isinstance(n, ast.Assign) and isinstance(n.value, ast.Dict)
+                                          and isinstance(n.targets[0], ast.Name) and "'tooltip'" in [ast.unparse(k) for k in n.value.keys]), None)),
+        ("has_color", flag_of("color")), ("has_size", flag_of("size")),
+    ])
     body = _nodoc(fn.body)
     src = None
     kind = None
@@ -796,8 +957,9 @@ def c_altair_enc():
         if m:
             src, kind = m.group(1), "rows_first rows"
         m = re.fullmatch(r"(\w+) = \{\}", t)
-        if m and i + 1 < len(body) and ast.unparse(body[i + 1]).replace("for (key, value) in", "for key, value in") == (
-                f"for agent_data in all_agent_data:\n    for key, value in agent_data.items():\n        {m.group(1)}.setdefault(key, value)"):
+        if m and i + 1 < len(body) and re.fullmatch(
+                r"for (\w+) in all_agent_data:\n    for \(?(\w+), (\w+)\)? in \1\.items\(\):\n        " + m.group(1) + r"\.setdefault\(\2, \3\)",
+                ast.unparse(body[i + 1])):
             src, kind = m.group(1), "rows_union rows"
     if src is None:
         raise T.Broken("_draw_grid: the dict the encodings are derived from was not recognised")
@@ -818,8 +980,9 @@ def c_altair_enc():
     if len(tips) != 1:
         raise T.Broken("_draw_grid: tooltip comprehension not found")
     g = tips[0].generators[0]
-    if ast.unparse(g.iter) != f"{src}.items()" or [ast.unparse(x) for x in g.ifs] != ["key not in invalid_tooltips"] \
-            or not ast.unparse(tips[0].elt).startswith("alt.Tooltip(key,"):
+    kv = [x.id for x in g.target.elts] if isinstance(g.target, ast.Tuple) and all(isinstance(x, ast.Name) for x in g.target.elts) else [None, None]
+    if ast.unparse(g.iter) != f"{src}.items()" or [ast.unparse(x) for x in g.ifs] != [f"{kv[0]} not in invalid_tooltips"] \
+            or not ast.unparse(tips[0].elt).startswith(f"alt.Tooltip({kv[0]},"):
         raise T.Broken("_draw_grid: tooltips are not `alt.Tooltip(key, ...) for key, value in <dict>.items() if key not in invalid_tooltips`")
     uses = {"color": ("alt.Color('color', type='nominal')", "has_color"), "size": ("alt.Size('size', type='quantitative')", "has_size")}
     txt = ast.unparse(fn)
